@@ -456,13 +456,14 @@ func c19ShortTableCase(r *RNG, id string, s int) *TrieCase {
 		}
 	}
 	tc.Keys = uniqSorted(tc.Keys)
-	vk := r.Intn(VKindCnt)
-	if vk == VAllEqual || vk == VLongRuns {
-		vk = VDistinct // de-duplication would remove labels and change the bitmaps
-	}
+	vk := []int{VNil, VDistinct, VDistinct}[r.Intn(3)] // equal adjacent values would be de-duplicated away and change the bitmaps
 	tc.VKind = vkindNames[vk]
 	tc.IDs = genValueIDs(r, len(tc.Keys), vk)
 	tc.Enc = allEncNames[r.Intn(len(allEncNames))]
+	if vk != VNil {
+		// wide fixed-width encoders: narrow or zero-width ones make adjacent values equal
+		tc.Enc = []string{"I32", "U32", "I64", "U64", "Int", "TE", "B3"}[r.Intn(7)]
+	}
 	return tc
 }
 
